@@ -11,6 +11,7 @@ import (
 	"fmt"
 	"net/http"
 	"os"
+	"path/filepath"
 	"strings"
 	"testing"
 	"time"
@@ -682,4 +683,40 @@ func FuzzVF_C18_fc_types(f *testing.F) {
 		c := c18TypesCase{Kind: c18Kinds[int(kind)%len(c18Kinds)], Version: c18AllVersions[int(ver)%len(c18AllVersions)], Body: body}
 		vfFuzzEval(t, "C18/fc-types", c, c18TypesCheck)
 	})
+}
+
+// TestVF_C18_DumpCorpus writes the seeds as Go fuzz corpus files when VF_C18_DUMP names a directory.
+func TestVF_C18_DumpCorpus(t *testing.T) {
+	dir := os.Getenv("VF_C18_DUMP")
+	if dir == "" {
+		t.Skip("VF_C18_DUMP not set")
+	}
+	write := func(target string, i int, lines ...string) {
+		d := filepath.Join(dir, target)
+		if err := os.MkdirAll(d, 0o755); err != nil {
+			t.Fatal(err)
+		}
+		body := "go test fuzz v1\n" + strings.Join(lines, "\n") + "\n"
+		if err := os.WriteFile(filepath.Join(d, fmt.Sprintf("seed-%03d", i)), []byte(body), 0o644); err != nil {
+			t.Fatal(err)
+		}
+	}
+	for i, h := range c18Headers {
+		write("FuzzVF_C18_fc_request", i, `string("PUT")`, `string("/_matrix/federation/v1/send/1")`, fmt.Sprintf("string(%q)", h), fmt.Sprintf("string(%q)", c18Headers[(i*7+3)%len(c18Headers)]),
+			`string("application/json")`, `[]byte("{\"a\":1}")`, `string("local.example")`, fmt.Sprintf("uint8(%d)", i))
+	}
+	for i, s := range c18TypesSeeds() {
+		k, v := 0, 0
+		for j, x := range c18Kinds {
+			if x == s.Kind {
+				k = j
+			}
+		}
+		for j, x := range c18AllVersions {
+			if x == s.Version {
+				v = j
+			}
+		}
+		write("FuzzVF_C18_fc_types", i, fmt.Sprintf("uint8(%d)", k), fmt.Sprintf("uint8(%d)", v), fmt.Sprintf("[]byte(%q)", string(s.Body)))
+	}
 }
